@@ -14,90 +14,118 @@ import (
 // Sibling cross-check of the two adapters: per method a summary of guard events, core calls and error classes is
 // extracted from the SSA form and the two summaries are compared after normalisation.
 
-// normEvent maps a call instruction in a client method to a normalised event name ("" = not an event).
-func (e *Engine) normEvent(role string, lr *lockResult, c ssa.CallInstruction) string {
+// normEvent maps a call instruction in a client method to a normalised event name ("" = not an event) and says whether
+// the callee is to be looked into. Package-local helpers that exist under the same name in both clients are events of the
+// shared vocabulary (getTable, validateExpressionAttributes, …); helpers that only one client has are how that client
+// happens to be factored, so they are expanded in place.
+func (e *Engine) normEvent(role string, lr *lockResult, c ssa.CallInstruction) (ev string, descend bool) {
 	if isBuiltin(c) {
-		return ""
+		return "", false
 	}
 	if k := lr.muCall(c); k != "" {
-		return "mutex" // how the mutex is released (defer or explicit) is an idiom, not behaviour
+		return "mutex", false // how the mutex is released (defer or explicit) is an idiom, not behaviour
 	}
 	if c.Common().IsInvoke() {
 		m := c.Common().Method
 		if m.Name() == "Error" || m.Name() == "Code" || m.Name() == "Message" {
-			return ""
+			return "", false
 		}
-		return "invoke:" + m.Name()
+		return "invoke:" + m.Name(), false
 	}
 	g := c.Common().StaticCallee()
 	if g == nil {
-		return "dyncall"
+		return "dyncall", false
 	}
 	if isPtrHelper(g) {
-		return ""
+		return "", false
 	}
 	switch r := e.fnRole(g); r {
 	case "core":
-		return "core:" + strings.TrimPrefix(e.fname(g), "core.")
+		return "core:" + strings.TrimPrefix(e.fname(g), "core."), false
 	case role:
 		if ok, _ := isConversion(e, g); ok || isMapCopyFunc(g) {
-			return ""
+			return "", false
 		}
 		name := g.Name()
-		if ff := e.field(role, "Client", "forceFailureErr"); ff != nil && failureGetter(g, ff) {
-			return "mutex" // locked read of the failure condition; the test itself is recorded as failure-test
+		if e.lockedGetter(role, lr, g) {
+			return "mutex", false // locked read of a client field
 		}
 		if strings.HasPrefix(name, "map") && g.Signature.Results().Len() == 1 && len(g.Params) >= 1 {
-			// other mappers (inputs, descriptions): transparent, except the error mapper of v2
-			if isErrorType(g.Signature.Results().At(0).Type()) {
-				return "" // error mapping is a representation difference between the SDKs
-			}
-			return ""
+			return "", false // mappers (inputs, descriptions, errors): representation, compared by C10 / R2 / R3
 		}
-		return "local:" + name
+		other := "v1"
+		if role == "v1" {
+			other = "v2"
+		}
+		if g.Signature.Recv() != nil {
+			if _, both := e.clientMethods(other)[name]; !both {
+				return "", true
+			}
+		} else if e.fn(other, name) == nil {
+			return "", true
+		}
+		return "local:" + name, false
 	case "types", "interp", "lang":
-		return ""
+		return "", false
 	}
 	// SDK / library
-	name := staticCalleeName(c)
-	switch {
-	case strings.HasSuffix(name, ").Validate"):
-		return "sdk:Validate"
-	case strings.Contains(name, "awserr.New"), strings.Contains(name, "errors.Is"), strings.Contains(name, "errors.As"), strings.HasPrefix(name, "fmt."), strings.HasPrefix(name, "strings."):
-		return ""
+	if strings.HasSuffix(staticCalleeName(c), ").Validate") {
+		return "sdk:Validate", false
 	}
-	return ""
+	return "", false
 }
 
-// methodSummary: ordered, de-duplicated event list of a method (block order = dominance-compatible order of the CFG numbering).
-func (e *Engine) methodSummary(role string, fn *ssa.Function) []string {
+type clientEvent struct {
+	name string
+	path []ssa.Instruction
+}
+
+// methodEvents: the events of a method, looked up through the helpers only this client has; first occurrence of each.
+func (e *Engine) methodEvents(role string, fn *ssa.Function) []clientEvent {
 	lr := e.lockAnalysis(role)
-	var evs []string
+	var evs []clientEvent
 	seen := map[string]bool{}
-	for _, b := range fn.Blocks {
-		if b == fn.Recover {
-			continue
-		}
-		for _, in := range b.Instrs {
-			c, ok := in.(ssa.CallInstruction)
-			if !ok {
-				continue
-			}
-			ev := e.normEvent(role, lr, c)
-			if ev == "" || seen[ev] {
-				continue
-			}
-			seen[ev] = true
-			evs = append(evs, ev)
+	add := func(name string, in ssa.Instruction, ctx []callCtx) {
+		if name != "" && !seen[name] {
+			seen[name] = true
+			evs = append(evs, clientEvent{name, pathOf(in, ctx)})
 		}
 	}
-	// the failure test is an event as well
-	if ff := e.field(role, "Client", "forceFailureErr"); ff != nil {
-		if findFailureTest(fn, ff) != nil {
-			evs = append(evs, "failure-test")
+	ff := e.field(role, "Client", "forceFailureErr")
+	scanned := map[*ssa.Function]bool{}
+	scanTest := func(f *ssa.Function, ctx []callCtx) {
+		if ff == nil || scanned[f] {
+			return
+		}
+		scanned[f] = true
+		if ft := findFailureTest(f, ff); ft != nil && ft.gate == nil {
+			add("failure-test", ft.ifi, ctx)
 		}
 	}
+	scanTest(fn, nil)
+	e.expandCalls(role, fn, func(c ssa.CallInstruction, ctx []callCtx) bool {
+		ev, descend := e.normEvent(role, lr, c)
+		add(ev, c, ctx)
+		if descend {
+			scanTest(c.Common().StaticCallee(), append(append([]callCtx{}, ctx...), callCtx{c, c.Common().StaticCallee()}))
+		}
+		return descend
+	})
 	return evs
+}
+
+func (e *Engine) methodSummary(role string, fn *ssa.Function) []string {
+	var out []string
+	for _, ev := range e.methodEvents(role, fn) {
+		out = append(out, ev.name)
+	}
+	return out
+}
+
+// isCheckEvent: events whose outcome can be an error returned to the caller; their relative order decides which error a
+// request with several faults gets.
+func isCheckEvent(ev string) bool {
+	return ev == "failure-test" || ev == "sdk:Validate" || strings.HasPrefix(ev, "local:") || strings.HasPrefix(ev, "core:")
 }
 
 func init() {
@@ -159,6 +187,34 @@ func c17R1(e *Engine) {
 		}
 		if diffs == 0 {
 			e.pass("R1", "Client."+name+":summary", e.pos(f2.Pos()), "both clients: %s", strings.Join(s2, " → "))
+		}
+		// order of the checks: a request with two faults must get the same error from both clients
+		ev1, ev2 := e.methodEvents("v1", f1), e.methodEvents("v2", f2)
+		pos1, pos2 := map[string][]ssa.Instruction{}, map[string][]ssa.Instruction{}
+		for _, x := range ev1 {
+			pos1[x.name] = x.path
+		}
+		for _, x := range ev2 {
+			pos2[x.name] = x.path
+		}
+		swapped, pairs := "", 0
+		for _, a := range sortedKeys(all) {
+			for _, b := range sortedKeys(all) {
+				if a >= b || !isCheckEvent(a) || !isCheckEvent(b) || pos1[a] == nil || pos2[a] == nil || pos1[b] == nil || pos2[b] == nil {
+					continue
+				}
+				pairs++
+				if (pathBefore(pos1[a], pos1[b]) && pathBefore(pos2[b], pos2[a])) || (pathBefore(pos1[b], pos1[a]) && pathBefore(pos2[a], pos2[b])) {
+					swapped = a + " / " + b
+				}
+			}
+		}
+		if pairs > 0 {
+			if swapped != "" {
+				e.fail("R1", "Client."+name+":check-order", e.pos(f2.Pos()), "the checks %s are made in opposite orders by the two clients: a request with both faults (e.g. an unknown table and an unused placeholder) is answered with different error classes", swapped)
+			} else {
+				e.pass("R1", "Client."+name+":check-order", e.pos(f2.Pos()), "%d pairs of checks are ordered consistently in both clients", pairs)
+			}
 		}
 	}
 	e.minCount("R1", 14)
@@ -379,19 +435,27 @@ func c17R6(e *Engine) {
 	// (a) arguments of the placeholder validation per operation
 	argSummary := func(role string, fn *ssa.Function) string {
 		var parts []string
-		instrs(fn, func(in ssa.Instruction) {
-			c, ok := in.(*ssa.Call)
-			if !ok || c.Call.StaticCallee() == nil || c.Call.StaticCallee().Name() != "validateExpressionAttributes" {
-				return
+		e.expandCalls(role, fn, func(ci ssa.CallInstruction, ctx []callCtx) bool {
+			c, ok := ci.(*ssa.Call)
+			if !ok || c.Call.StaticCallee() == nil {
+				return false
+			}
+			if c.Call.StaticCallee().Name() != "validateExpressionAttributes" {
+				return true
 			}
 			for i, a := range c.Call.Args {
 				var os []string
 				if i == len(c.Call.Args)-1 && c.Call.Signature().Variadic() {
-					for _, el := range variadicElems(a) {
-						os = append(os, e.origins(el)...)
+					ra, rctx := resolveParam(a, ctx)
+					els := variadicElems(ra)
+					if len(els) == 0 {
+						os = e.originsCtx(ra, rctx)
+					}
+					for _, el := range els {
+						os = append(os, e.originsCtx(el, rctx)...)
 					}
 				} else {
-					os = e.origins(a)
+					os = e.originsCtx(a, ctx)
 				}
 				for j := range os {
 					// drop the SDK-specific input type prefix: field:PutItemInput.X -> X
@@ -402,6 +466,7 @@ func c17R6(e *Engine) {
 				sort.Strings(os)
 				parts = append(parts, strings.Join(os, "+"))
 			}
+			return false
 		})
 		return strings.Join(parts, " ; ")
 	}
